@@ -2,7 +2,7 @@
 from . import rtprop
 
 THEOREMS = ['FlexVerif.doWrap_start', 'FlexVerif.inputOp_start']
-TRANSLATED = ['FlexVerif.C03NextBuf.' + t for t in ('eof_only_when_reader_dry', 'nextBuf_eof_pending', 'nextBuf_nofill', 'nextBuf_read')] + ['FlexVerif.C03NextBufC99.eof_only_when_reader_dry_c99', 'FlexVerif.C11Flush.init_spec']
+TRANSLATED = ['FlexVerif.C03NextBuf.' + t for t in ('eof_only_when_reader_dry', 'nextBuf_eof_pending', 'nextBuf_nofill', 'nextBuf_read')] + ['FlexVerif.C03NextBufC99.eof_only_when_reader_dry_c99', 'FlexVerif.C11Flush.init_spec', 'FlexVerif.C11Flush.restart_current', 'FlexVerif.C11FlushC99.restart99_current']
 
 
 def run(ctx):
